@@ -20,7 +20,9 @@ TAGS = {
     "util_known": ["Pyro5.util.SerpentSerializer", "Pyro5.util.MarshalSerializer", "Pyro5.util.JsonSerializer", "Pyro5.util.MsgpackSerializer"],
     "util_unknown": ["Pyro5.util.Other", "Pyro5.util.get_serializer", "Pyro5.util."],
     "errors_pyro": ["Pyro5.errors.NamingError", "Pyro5.errors.PyroError", "Pyro5.errors.CommunicationError", "Pyro5.errors.SecurityError"],
-    "errors_other": ["Pyro5.errors.sys", "Pyro5.errors.get_pyro_traceback", "Pyro5.errors.config", "Pyro5.errors.traceback", "Pyro5.errors.linecache"],
+    "errors_other": ["Pyro5.errors.sys", "Pyro5.errors.get_pyro_traceback", "Pyro5.errors.config", "Pyro5.errors.traceback", "Pyro5.errors.linecache",
+                     # names of classes that exist elsewhere, but not in that module
+                     "Pyro5.errors.ValueError", "Pyro5.errors.SystemExit", "Pyro5.errors.KeyboardInterrupt", "Pyro5.errors.URI", "Pyro5.errors.Proxy"],
     "errors_missing": ["Pyro5.errors.NoSuchError", "Pyro5.errors.", "Pyro5.errors.naming.Error"],
     "struct_error": ["struct.error"], "exc_wrapper": ["Pyro5.core._ExceptionWrapper"],
     "bare_builtin_exc": ["ValueError", "KeyError", "ZeroDivisionError", "OSError", "StopIteration"],
@@ -132,7 +134,10 @@ def tagged(tag, flagged, body, tagclass, rng):
             d["value"] = px if which == 4 else "1"
         else:
             base = list(valid_state.get(tagclass, ["PYRO", "obj", None, "host", 1234]))
-            k = rng.randrange(len(base)) if base else 0
+            ROTATE["st:" + tagclass] = r = ROTATE.get("st:" + tagclass, -1) + 1
+            k = r % len(base) if base else 0
+            if base and base[0] == "PYRO":
+                base[0] = ("PYRO", "PYRONAME", "PYROMETA")[(r // len(base)) % 3]      # (the object of a PYROMETA uri is a set of tags)
             if base:
                 base[k] = px
             d["state"] = base or [px]
